@@ -509,6 +509,11 @@ func (w *addrWorld) pingSend(s Step) {
 	}
 	msg[6], msg[7] = byte(s.C>>8), byte(s.C)
 	copy(msg[8:], data)
+	if s.C%3 == 0 {
+		// an application ported from raw sockets fills in a checksum of its own: the stack computes the real one
+		msg[2], msg[3] = byte(s.C>>3)|1, byte(s.C>>5)
+		w.Probes["ping_writes_with_a_checksum_filled_in"]++
+	}
 	w.begin()
 	r, routed := w.choose(dst, "")
 	var e *tcpip.Error
